@@ -802,6 +802,19 @@ def _drv_init_multisim(ss, sim, k):
 def _drv_multisim_list(ss, sim, k):
     s2 = sim.copy(); s2.pars.rand_seed += 1 + k
     m = ss.MultiSim(sims=[sim, s2]); m.run(parallel=False, shrink=False); return m.sims
+def _drv_midstep_pause(ss, sim, k):
+    # paused INSIDE a timestep (the loop's own single-function stepping), then resumed with run()
+    sim.init()
+    for _ in range(min(3 + 7 * k, len(sim.loop.plan) - 2)): sim.loop.run_one_step()
+    sim.run(); return [sim]
+def _drv_run_until_then_run(ss, sim, k):
+    # run(until=...) up to a point of the sim's own timeline, then run() to the end; twice for k > 1
+    sim.init()
+    tv = list(sim.t.timevec)
+    for i in sorted({min(len(tv) - 2, 1 + k), min(len(tv) - 2, 3 + 2 * k)} if k > 1 else {min(len(tv) - 2, 1 + k)}):
+        if i > 0 and not sim.complete: sim.run(until=tv[i])
+    if not sim.complete: sim.run()
+    return [sim]
 # (MultiSim.run(debug=True) is not an entry point today: it forwards n_runs to single_run, which rejects it)
 
 DRIVERS = {f[5:]: g for f, g in list(globals().items()) if f.startswith('_drv_')}
